@@ -28,13 +28,22 @@ class Oracle:
         proc = w.proc
         items, how, reassign = self.unit[0][:3]
         shape = self.unit[0][3] if len(self.unit[0]) > 3 else 'flat'
-        failing = [i for i, (_, o) in enumerate(items) if o in ('exc', 'kill')]
+        failing = [i for i, (k, o) in enumerate(items) if o in ('exc', 'kill') or (o == 'cancel' and k == 'child')]
+        # a plain future that gets cancelled: the statements only say that the chain must not wait for ever (C06)
+        soft = [i for i, (k, o) in enumerate(items) if o == 'cancel' and k != 'child']
         names = [t[0] for t in w.trace]
         feats = {'how': how, 'shape': shape, 'n': len(items), 'kinds': sorted({k for k, _ in items}), 'outcomes': sorted({o for _, o in items}),
                  'paused_ops': sorted({r['op'] for r in w.calls if r['origin'] == 'env'})}
         w.result.nontrivial = len(w.completion_order) >= 2 and w.completion_order != sorted(
             w.completion_order, key=lambda x: x if isinstance(x, int) else x[1])
         want = wcharness.expected_values(w)
+        if soft:
+            if w.live():
+                w.violate('cancelled-item:not-terminated', dict(feats, state=str(proc.state), paused=proc.paused),
+                          f'every awaited item is done (one of them cancelled) but the chain is {proc.state} at quiescence')
+            w.result.outcome = (str(proc.state), tuple(names), tuple(map(str, w.completion_order)))
+            w.result.sample = {'items': list(map(list, items)), 'how': how, 'end': str(proc.state)}
+            return
         if w.at_s2 is not None:
             # the barrier: at the entry of the next step every awaited item is done and in the context
             for key, (done, value) in sorted(w.at_s2.items()):
@@ -57,8 +66,12 @@ class Oracle:
                 w.violate('failure:not-excepted', dict(feats, state=str(proc.state)), None)
             else:
                 exc = proc.exception()
+                import asyncio
+                import concurrent.futures
                 ok = any(exc is e for e in w.item_errors.values()) or (
-                    isinstance(exc, plumpy.KilledError) and any(items[i][1] == 'kill' for i in failing))
+                    isinstance(exc, plumpy.KilledError) and any(items[i][1] in ('kill', 'cancel') for i in failing)) or (
+                    isinstance(exc, (asyncio.CancelledError, concurrent.futures.CancelledError))
+                    and any(items[i][1] == 'cancel' for i in failing))
                 if not ok:
                     w.violate('failure:wrong-exception', dict(feats, exc=type(exc).__name__), repr(exc))
         else:
@@ -99,7 +112,7 @@ def factory() -> CtlProperty:
 def units_for(tier: str) -> List[Any]:
     units: List[Any] = []
     n_max = 2 if tier == 'quick' else 3
-    item_kinds = [('gate', 'ok'), ('gate', 'exc'), ('child', 'ok'), ('child', 'exc'), ('child', 'kill')]
+    item_kinds = [('gate', 'ok'), ('gate', 'exc'), ('child', 'ok'), ('child', 'exc'), ('child', 'kill'), ('child', 'cancel')]
     for n in range(1, n_max + 1):
         for items in itertools.product(item_kinds, repeat=n):
             if n == 3 and sum(1 for k, _ in items if k == 'child') > 2:
@@ -116,6 +129,11 @@ def units_for(tier: str) -> List[Any]:
                   (('gate', 'ok'), ('done', 'exc')), (('done', 'ok'), ('child', 'ok'))):
         for how in ('return', 'call'):
             units.append(((items, how, False), None))
+    # a plain future that gets cancelled (alone, before and after another item)
+    for items in ((('gate', 'cancel'),), (('gate', 'cancel'), ('gate', 'ok')), (('child', 'ok'), ('gate', 'cancel')),
+                  (('done', 'cancel'),), (('done', 'cancel'), ('gate', 'ok'))):
+        for how in ('return', 'call'):
+            units.append(((items, how, False), None))
     # the registering step inside a loop / a branch (its return value has to travel through the nested steppers)
     for shape in ('while', 'if', 'while-if'):
         for items in ((('gate', 'ok'),), (('gate', 'exc'),), (('child', 'ok'),), (('gate', 'ok'), ('child', 'kill'))):
@@ -129,7 +147,7 @@ def run_check(tier: str, seed: int, workers: Any) -> Dict[str, Any]:
     return runner.run_explorer(
         factory, (), units_for(tier), budget, seed, workers,
         rule='work chains s1,s2,s3 where s1 registers n items (loop futures completed by the environment / child processes '
-             'launched from the step; outcome value, exception or killed child) by return ToContext / to_context / both; '
+             'launched from the step; outcome value, exception, killed child - by kill() or by cancelling its future -, cancelled future) by return ToContext / to_context / both; '
              'every order and placement of the completion events between loop callbacks (J unbounded within the run) x '
              '<=K pause/play requests; non-trivial = the items completed in an order other than the registration order',
         assumptions=['single event loop thread', 'K=1 pause/play is beyond the statement\'s quantifier and kept because '
